@@ -803,6 +803,11 @@ def corpus():
                      ['99999999999999999999999-'], ['0-99999999999999999999999']]
             for specs in heads:
                 cases.append(range_case(fe, 0, None, fname, specs))
+            # optional whitespace around list elements (RFC 9110 5.6.1 / 14.1.2: "bytes= 0-999, 4500-5499, -1000"), next to open and suffix specs
+            for sp in (', ', ' ,', ' , ', ',\t'):
+                cases.append(range_case(fe, 0, None, fname, ['0-1', '-2'], sep=sp))
+                cases.append(range_case(fe, 0, None, fname, ['0-0', '%d-' % max(n - 2, 0), '0-1'], sep=sp))
+                cases.append(range_case(fe, 0, None, fname, ['-1', '0-0'], sep=sp))
             cases.append(range_case(fe, 0, None, fname, ['0-1', '3-4'], sep=', '))
             cases.append(range_case(fe, 0, None, fname, ['0-1', '3-4'], sep=' ,'))
             cases.append(range_case(fe, 0, None, fname, ['0-5'], prefix='bytes '))
@@ -881,8 +886,8 @@ def gen_range(rng):
     r = rng.random()
     if r < 0.04:
         prefix = rng.choice(['bytes', 'bytes ', '', 'bytes:'])
-    elif r < 0.12:
-        sep = rng.choice([', ', ' ,', ' , '])
+    elif r < 0.30:
+        sep = rng.choice([', ', ' ,', ' , ', ',\t'])
     li = rng.randrange(len(LAYOUTS))
     mount = rng.choice([None, None, '/static'])
     case = range_case(fe, li, mount, fname, specs, prefix=prefix, sep=sep)
